@@ -43,7 +43,7 @@ Qed.
 
 Lemma is_expire_next : forall c t, is_expire c t = expired_next c t.
 Proof.
-  intros c t. unfold is_expire, expired_next, ExpireBound, TxHeightFlag, LowAllowPackHeight, HighAllowPackHeight.
+  intros c t. unfold is_expire, is_expire_v, expired_next, ExpireBound, TxHeightFlag, LowAllowPackHeight, HighAllowPackHeight.
   destruct (t_expire t =? 0); [reflexivity|].
   destruct (t_expire t <=? 1000000000); [reflexivity|].
   destruct (negb (c_para c) && c_txheight c && (4611686018427387904 <? t_expire t)); [|reflexivity].
@@ -71,7 +71,8 @@ Lemma member_ok : forall c p grp t, check_member c p grp t = R_OK ->
 Proof.
   intros c p grp t H. unfold check_member in H.
   destruct (t_to_valid t); simpl in H; [|discriminate].
-  destruct (t_blocked t); [discriminate|].
+  unfold t_blocked.
+  destruct (blocked_pos t) as [q|]; [destruct q; discriminate|].
   destruct (Z.leb_spec (c_persender c) (count_sender p (t_sender t))); [discriminate|].
   destruct (expired_chk c grp t); [discriminate|].
   repeat split; try reflexivity; assumption.
@@ -86,6 +87,84 @@ Qed.
 
 Lemma owed_zero : forall ts, owed_all 0 ts = 0.
 Proof. induction ts as [|t ts IH]; simpl; [reflexivity|]. unfold owed. rewrite IH. lia. Qed.
+
+(** the blacklist check covers every involved account *)
+Lemma not_blocked_not_listed : forall t, tx_consistent t = true -> t_blocked t = false -> listed t = false.
+Proof.
+  intros t Hc Hb. unfold t_blocked, blocked_pos in Hb. unfold listed. unfold tx_consistent in Hc.
+  destruct (bl_from t); [discriminate|].
+  destruct (bl_to t); [discriminate|].
+  destruct (bl_diff t); simpl in *.
+  - destruct (bl_realto t); [discriminate|]. simpl.
+    destruct (bl_evm t); [|reflexivity]. destruct (bl_evmaddr t); [discriminate|].
+    destruct (bl_evmpara t); [discriminate|reflexivity].
+  - apply eqb_prop in Hc. rewrite Hc. simpl.
+    destruct (bl_evm t); [|reflexivity]. destruct (bl_evmaddr t); [discriminate|].
+    destruct (bl_evmpara t); [discriminate|reflexivity].
+Qed.
+
+(** the parachain rules: no two titles, no title next to a main-chain execer *)
+Lemma titles_in : forall ms t, In t ms -> (2 <= t_para t)%N -> In (t_para t) (titles ms).
+Proof.
+  intros ms t Hin Ht. unfold titles. apply filter_In. split; [apply in_map; exact Hin|].
+  apply N.leb_le. exact Ht.
+Qed.
+
+Lemma single_title : forall ms a b, multi_title ms = false -> In a (titles ms) -> In b (titles ms) -> a = b.
+Proof.
+  intros ms a b Hm Ha Hb. unfold multi_title in Hm. destruct (titles ms) as [|x tl]; [destruct Ha|].
+  assert (K : forall y, In y (x :: tl) -> y = x).
+  { intros y [<-|Hy]; [reflexivity|].
+    destruct (N.eqb_spec x y) as [->|Hn]; [reflexivity|].
+    assert (existsb (fun y0 => negb (N.eqb x y0)) tl = true).
+    { apply existsb_exists. exists y. split; [exact Hy|]. apply negb_true_iff. apply N.eqb_neq. exact Hn. }
+    congruence. }
+  rewrite (K a Ha), (K b Hb). reflexivity.
+Qed.
+
+Lemma check_para_one_chain : forall c ms, check_para c ms = R_OK -> cl_para c ms = true.
+Proof.
+  intros c ms H. unfold check_para in H. unfold cl_para. destruct (c_parafork c); [|reflexivity].
+  destruct (multi_title ms) eqn:Hm; [discriminate|].
+  destruct (has_title ms && has_main ms) eqn:Hx; [discriminate|].
+  unfold one_chain. apply forallb_forall. intros a Ha. apply forallb_forall. intros b Hb.
+  apply andb_true_iff. split.
+  - destruct (N.ltb_spec (t_para a) 2) as [|La]; [reflexivity|].
+    destruct (N.ltb_spec (t_para b) 2) as [|Lb]; [reflexivity|]. simpl.
+    apply N.eqb_eq. apply (single_title ms); [exact Hm|apply titles_in; assumption|apply titles_in; assumption].
+  - apply negb_true_iff. destruct (N.leb_spec 2 (t_para a)) as [La|]; [|reflexivity].
+    destruct (N.eqb_spec (t_para b) 0) as [Eb|]; [|reflexivity]. exfalso.
+    assert (has_title ms = true).
+    { unfold has_title. pose proof (titles_in ms a Ha La) as Hi. destruct (titles ms); [destruct Hi|reflexivity]. }
+    assert (has_main ms = true).
+    { unfold has_main. apply existsb_exists. exists b. split; [exact Hb|]. apply N.eqb_eq. exact Eb. }
+    rewrite H0, H1 in Hx. discriminate.
+Qed.
+
+Lemma one_chain_single : forall t, one_chain [t] = true.
+Proof.
+  intro t. unfold one_chain. simpl. rewrite N.eqb_refl, !andb_true_r, !orb_true_r. simpl.
+  apply negb_true_iff. destruct (N.leb_spec 2 (t_para t)); [|reflexivity].
+  destruct (N.eqb_spec (t_para t) 0) as [E|]; [|reflexivity]. rewrite E in H. exfalso. apply (N.nle_succ_0 1). exact H.
+Qed.
+
+Lemma cl_para_single : forall c t, cl_para c [t] = true.
+Proof. intros c t. unfold cl_para. destruct (c_parafork c); [apply one_chain_single|reflexivity]. Qed.
+
+(** what facts_consistent says *)
+Lemma fc_plain : forall s, s_shape s = Plain -> facts_consistent s = true -> tx_consistent (s_outer s) = true.
+Proof. intros s Hsh H. unfold facts_consistent in H. rewrite Hsh in H. apply andb_true_iff in H as [H _]. exact H. Qed.
+
+Lemma fc_group : forall s ms ok, s_shape s = Group ms ok -> facts_consistent s = true ->
+  match ms with h :: _ => wrap_consistent (s_outer s) h | [] => true end = true
+  /\ (forall t, In t ms -> tx_consistent t = true)
+  /\ exists vs, t_gexp (s_outer s) = Some vs /\ list_eq_z vs (map t_expire ms) = true.
+Proof.
+  intros s ms ok Hsh H. unfold facts_consistent in H. rewrite Hsh in H.
+  apply andb_true_iff in H as [H Hg]. apply andb_true_iff in H as [Hw Hc].
+  split; [exact Hw|]. split; [apply forallb_forall; exact Hc|].
+  destruct (t_gexp (s_outer s)) as [vs|]; [|discriminate]. exists vs. split; [reflexivity|exact Hg].
+Qed.
 
 (** checkTxs on a group that is not forwarded *)
 Lemma check_txs_group_inv : forall c p s ms ok, s_shape s = Group ms ok -> s_forward s = false ->
@@ -120,23 +199,26 @@ Lemma group_entry : forall c p s ms ok, s_shape s = Group ms ok -> s_forward s =
 Proof.
   intros c p s ms ok Hsh Hf Hc H.
   destruct (check_txs_group_inv _ _ _ _ _ Hsh Hf H) as (_ & _ & (h & tl & -> & Hh) & _).
-  unfold facts_consistent in Hc. unfold cl_entry. rewrite Hsh in *. apply head_entry; assumption.
+  destruct (fc_group _ _ _ Hsh Hc) as (Hw & _ & _).
+  unfold cl_entry. rewrite Hsh. apply head_entry; assumption.
 Qed.
 
 (** early checks, plain transaction *)
 Lemma early_plain : forall c p s, cfg_ok c -> s_shape s = Plain -> s_forward s = false ->
+  facts_consistent s = true ->
   g_fee c s = true -> check_txs c p s = R_OK ->
   acc_early_but c p s [s_outer s] (fee_meets c p s [s_outer s]) (cl_exp_on c [s_outer s]) = true.
 Proof.
-  intros c p s [Hmin Hmax] Hsh Hf Hg H. unfold check_txs in H. rewrite Hf in H.
+  intros c p s [Hmin Hmax] Hsh Hf Hfc Hg H. pose proof (fc_plain _ Hsh Hfc) as Hcons. unfold check_txs in H. rewrite Hf in H.
   unfold check_tx in H. rewrite Hsh in H.
   destruct (negb (N.eqb (check_one c (s_outer s) (c_minfee c)) R_OK)) eqn:E1; [rewrite H in E1; discriminate|].
   apply neq_ok_false in E1.
   destruct (negb (N.eqb (if c_level c then check_level c p s else R_OK) R_OK)) eqn:E2; [rewrite H in E2; discriminate|].
   apply neq_ok_false in E2.
   apply member_ok in H as (Hto & Hbl & _ & Hex).
-  unfold acc_early_but, cl_to, cl_black, cl_exp_on, fee_meets. simpl.
-  rewrite Hto, Hbl, (expired_chk_next c false _ Hex eq_refl). simpl.
+  unfold acc_early_but. rewrite cl_para_single, andb_true_r.
+  unfold cl_to, cl_black, cl_exp_on, fee_meets. simpl.
+  rewrite Hto, (not_blocked_not_listed _ Hcons Hbl), (expired_chk_next c false _ Hex eq_refl). simpl.
   rewrite !andb_true_r.
   (* fee *)
   assert (Fb : owed (c_minfee c) (s_outer s) + 0 <= t_fee (s_outer s)
@@ -168,19 +250,32 @@ Lemma forallb_from : forall A (f : A -> bool) l, (forall x, In x l -> f x = true
 Proof. intros. apply forallb_forall. assumption. Qed.
 
 (** early checks, group *)
+Lemma check_group_para : forall c ms ok, check_group c ms ok = R_OK -> check_para c ms = R_OK.
+Proof.
+  intros c ms ok H. unfold check_group in H.
+  destruct (Z.of_nat (length ms) <? 2); [discriminate|].
+  destruct (negb (N.eqb (first_err (fun t => check_one c t 0) ms) R_OK)) eqn:E0; [rewrite H in E0; discriminate|].
+  destruct (negb (N.eqb (check_para c ms) R_OK)) eqn:E1; [rewrite H in E1; discriminate|].
+  apply neq_ok_false. exact E1.
+Qed.
+
 Lemma early_group : forall c p s ms ok, cfg_ok c -> s_shape s = Group ms ok -> s_forward s = false ->
+  facts_consistent s = true ->
   cl_entry s = true -> g_hdr s = true -> check_txs c p s = R_OK ->
   acc_early_but c p s ms (fee_meets c p s ms) (cl_exp_on c ms) = true.
 Proof.
-  intros c p s ms ok [Hmin Hmax] Hsh Hf Hent Hh H.
+  intros c p s ms ok [Hmin Hmax] Hsh Hf Hfc Hent Hh H.
+  destruct (fc_group _ _ _ Hsh Hfc) as (_ & Hcons & _).
   destruct (check_txs_group_inv _ _ _ _ _ Hsh Hf H) as (E1 & E2 & _ & H'). clear H.
+  pose proof (check_para_one_chain _ _ (check_group_para _ _ _ E1)) as Hpara.
   pose proof (first_err_ok _ _ _ H') as Hm. clear H'.
   unfold g_hdr in Hh. rewrite Hsh in Hh. rewrite forallb_forall in Hh.
-  assert (Hall : forall t, In t ms -> t_to_valid t = true /\ t_blocked t = false /\ expired_next c t = false).
+  assert (Hall : forall t, In t ms -> t_to_valid t = true /\ listed t = false /\ expired_next c t = false).
   { intros t Hin. destruct (member_ok _ _ _ _ (Hm t Hin)) as (A & B & _ & D).
-    repeat split; try assumption. apply (expired_chk_next c true t D).
+    split; [exact A|]. split; [apply not_blocked_not_listed; [apply Hcons; exact Hin|exact B]|].
+    apply (expired_chk_next c true t D).
     specialize (Hh t Hin). apply negb_true_iff in Hh. rewrite Hh. reflexivity. }
-  unfold acc_early_but, cl_to, cl_black, cl_exp_on.
+  unfold acc_early_but. rewrite Hpara, andb_true_r. unfold cl_to, cl_black, cl_exp_on.
   assert (F : fee_meets c p s ms = true).
   { unfold cl_entry in Hent. rewrite Hsh in Hent. destruct ms as [|h tl]; [discriminate|].
     unfold same_entry in Hent. apply andb_true_iff in Hent as [_ Hfee]. apply Z.eqb_eq in Hfee.
@@ -189,6 +284,7 @@ Proof.
     destruct (Z.of_nat (length (h :: tl)) <? 2); [discriminate|].
     destruct (negb (N.eqb (first_err (fun t => check_one c t 0) (h :: tl)) R_OK)) eqn:E0;
       [rewrite E1 in E0; discriminate|].
+    destruct (negb (N.eqb (check_para c (h :: tl)) R_OK)) eqn:Ep; [rewrite E1 in Ep; discriminate|].
     destruct (existsb _ (List.tl (h :: tl))); [discriminate|].
     destruct (total_fee (h :: tl) (c_minfee c)) as [tot|] eqn:T; [|discriminate].
     destruct (Z.ltb_spec (t_fee h) tot); [discriminate|].
@@ -283,7 +379,7 @@ Proof.
   apply andb_true_iff in G as [G Gh]. apply andb_true_iff in G as [Gw Gf].
   unfold g_fwd in Gw. apply negb_true_iff in Gw.
   apply pipeline_ok_inv in H as (_ & Ht & Hs & Hr).
-  unfold acceptable. destruct (txs_of s) as [ts|] eqn:Hts.
+  unfold acceptable, acceptable_at. destruct (txs_of s) as [ts|] eqn:Hts.
   2:{ unfold txs_of in Hts. unfold check_sign in Hs. destruct (s_shape s); try discriminate. }
   destruct (late_ok _ _ _ _ _ Hts Hs Hr) as [Hl _]. rewrite Hl.
   unfold txs_of in Hts. destruct (s_shape s) as [| |ms ok] eqn:Hsh; inversion Hts; subst ts.
@@ -349,7 +445,7 @@ Qed.
 (** every member of an accepted, not forwarded group has passed the per-transaction checks *)
 Lemma group_members_checked : forall c p s ms ok p', pipeline c p (STx s) = (R_OK, p') ->
   s_forward s = false -> s_shape s = Group ms ok ->
-  ok = true /\ 2 <= Z.of_nat (length ms) /\
+  ok = true /\ 2 <= Z.of_nat (length ms) /\ cl_para c ms = true /\
   forall t, In t ms ->
     t_sig_ok t = true /\ t_to_valid t = true /\ t_blocked t = false /\ t_on_chain t = false
     /\ (c_strict_chain c = true -> t_chain_ok t = true)
@@ -360,16 +456,18 @@ Proof.
   apply pipeline_ok_inv in H as (_ & Ht & Hs & Hr).
   destruct (check_txs_group_inv _ _ _ _ _ Hsh Hf Ht) as (E1 & _ & _ & Ht').
   pose proof (first_err_ok _ _ _ Ht') as Hm.
+  pose proof (check_para_one_chain _ _ (check_group_para _ _ _ E1)) as Hpara.
   unfold check_group in E1.
   destruct (Z.ltb_spec (Z.of_nat (length ms)) 2); [discriminate|].
   destruct (negb (N.eqb (first_err (fun t => check_one c t 0) ms) R_OK)) eqn:E0; [rewrite E1 in E0; discriminate|].
   apply neq_ok_false in E0. pose proof (first_err_ok _ _ _ E0) as Hc.
+  destruct (negb (N.eqb (check_para c ms) R_OK)) eqn:Ep; [rewrite E1 in Ep; discriminate|].
   destruct (existsb _ (List.tl ms)); [discriminate|].
   destruct (total_fee ms (c_minfee c)); [|discriminate].
   destruct (_ <? z); [discriminate|].
   destruct (_ && _ && _); [discriminate|].
   destruct ok; [|discriminate].
-  split; [reflexivity|]. split; [assumption|].
+  split; [reflexivity|]. split; [assumption|]. split; [exact Hpara|].
   intros t Hin.
   destruct (member_ok _ _ _ _ (Hm t Hin)) as (A & B & C & D).
   unfold check_sign in Hs. rewrite Hsh in Hs.
@@ -399,7 +497,7 @@ Proof.
   exists h, tl. split; [reflexivity|].
   pose proof Hh as Hh'. unfold is_group_head in Hh'. apply andb_true_iff in Hh' as [Hi Hs].
   apply N.eqb_eq in Hi. apply N.eqb_eq in Hs. repeat split; try assumption.
-  intro Hc. unfold facts_consistent in Hc. rewrite Hsh in Hc. apply head_entry; assumption.
+  intro Hc. destruct (fc_group _ _ _ Hsh Hc) as (Hw & _ & _). apply head_entry; assumption.
 Qed.
 
 (** a group whose wrapper differs from its first transaction in hash or signature is refused
